@@ -20,6 +20,8 @@ from ..errors import (
     InvalidEncryptedKeyError,
     InvalidExchangeKeyError,
     ConflictAlgorithmError,
+    MissingAlgorithmError,
+    MissingEncryptionError,
 )
 from ..util import (
     json_b64encode,
@@ -85,6 +87,8 @@ def perform_decrypt(obj: EncryptionData, registry: JWERegistry) -> None:
 
 
 def _perform_decrypt(obj: EncryptionData, registry: JWERegistry) -> None:
+    if "enc" not in obj.protected:
+        raise MissingEncryptionError()
     enc = registry.get_enc(obj.protected["enc"])
 
     iv = obj.bytes_segments["iv"]
@@ -99,6 +103,8 @@ def _perform_decrypt(obj: EncryptionData, registry: JWERegistry) -> None:
         registry.check_header(headers, True)
         # Step 6, Determine the Key Management Mode employed by the algorithm
         # specified by the "alg" (algorithm) Header Parameter.
+        if "alg" not in headers:
+            raise MissingAlgorithmError()
         alg = registry.get_alg(headers["alg"])
         try:
             cek = decrypt_recipient(alg, enc, recipient, tag)
